@@ -620,8 +620,8 @@ func (sh *Shard) At(in *string) { sh.cur.Store(in) }
 // A defect that makes a query loop forever (e.g. a cyclic failure chain) cannot be caught by
 // recover. The watchdog turns "one (trie, input) has been in progress for StallLimit" or "the heap
 // passed HeapLimit" (find() appending matches forever) into a reported violation and a clean exit
-// instead of a hang or an OOM kill. A trie normally stays < 0.1 s in a shard, so the limit is
-// three orders of magnitude away from any verdict on terminating code.
+// instead of a hang or an OOM kill. A trie normally stays < 0.1 s in a shard and the whole harness
+// needs < 0.3 GiB, so both limits are far away from any verdict on terminating code.
 
 func init() {
 	if s, err := time.ParseDuration(os.Getenv("VERIF_TRIE_STALL")); err == nil && s > 0 {
@@ -631,7 +631,7 @@ func init() {
 
 var (
 	StallLimit        = 120 * time.Second
-	HeapLimit  uint64 = 8 << 30
+	HeapLimit  uint64 = 3 << 30
 	watch      struct {
 		mu     sync.Mutex
 		active map[*Shard]*watchState
@@ -663,8 +663,8 @@ func unregister(sh *Shard) {
 // (Flush + Finish) — it does not return.
 func Watch(abort func(reason string, v *Visit, input *string)) {
 	go func() {
-		for tick := 0; ; tick++ {
-			time.Sleep(time.Second)
+		for {
+			time.Sleep(250 * time.Millisecond)
 			now := time.Now()
 			var oldest *watchState
 			watch.mu.Lock()
@@ -684,12 +684,10 @@ func Watch(abort func(reason string, v *Visit, input *string)) {
 			if now.Sub(oldest.since) > StallLimit {
 				abort(fmt.Sprintf("did not return within %v", StallLimit), oldest.v, oldest.in)
 			}
-			if tick%2 == 1 {
-				var ms runtime.MemStats
-				runtime.ReadMemStats(&ms)
-				if ms.HeapAlloc > HeapLimit && now.Sub(oldest.since) > 2*time.Second {
-					abort(fmt.Sprintf("heap grew beyond %d MiB while the call was in progress (runaway allocation)", HeapLimit>>20), oldest.v, oldest.in)
-				}
+			var ms runtime.MemStats
+			runtime.ReadMemStats(&ms)
+			if ms.HeapAlloc > HeapLimit {
+				abort(fmt.Sprintf("heap grew beyond %d MiB while the call was in progress (runaway allocation)", HeapLimit>>20), oldest.v, oldest.in)
 			}
 		}
 	}()
